@@ -17,7 +17,8 @@ var stdlibPureNames = map[string]bool{
 	"hash/crc32.Checksum": true, "hash/crc32.Update": true, "hash/crc32.ChecksumIEEE": true,
 	"strings.HasPrefix": true, "strings.HasSuffix": true, "strings.EqualFold": true, "strings.ToLower": true, "strings.Contains": true,
 	"bytes.Equal": true, "bytes.HasPrefix": true,
-	"strconv.Itoa": true, "errors.Is": true, "errors.As": false,
+	"strconv.Itoa": true, "strconv.FormatInt": true, "strconv.FormatUint": true, "strconv.Quote": true,
+	"errors.Is": true, "errors.As": false,
 	"(encoding/binary.bigEndian).Uint16": true, "(encoding/binary.bigEndian).Uint32": true, "(encoding/binary.bigEndian).Uint64": true,
 	"(encoding/binary.littleEndian).Uint16": true, "(encoding/binary.littleEndian).Uint32": true, "(encoding/binary.littleEndian).Uint64": true,
 	"(*sync.Mutex).Lock": true, "(*sync.Mutex).Unlock": true, "(*sync.RWMutex).Lock": true, "(*sync.RWMutex).Unlock": true,
